@@ -1593,6 +1593,12 @@ class Fn:
                 src = value.id if isinstance(value, ast.Name) else None
                 if target.id in self.inplace or (src is not None and src in self.inplace) or (src is None and self.self_path(value) is not None):
                     self.err(value, "alias of a list that is edited in place")
+            # Python 3's zip / map / filter / enumerate / reversed objects and generator expressions are ONE-SHOT iterators: bound to a name they may be
+            # consumed once (the translation treats them as the list of their elements, see `use_iter`)
+            lazy = isinstance(value, ast.GeneratorExp) or (isinstance(value, ast.Call) and isinstance(value.func, ast.Name)
+                                                           and value.func.id in ("zip", "map", "filter", "enumerate", "reversed", "iter"))
+            if lazy and isinstance(vty, tuple) and vty[0] == "list":
+                vty = ("iter", vty[1])
             if vty == "emptydict":
                 vty = want if want is not None else self.forward_type(target.id, value)
                 v = "[]"
